@@ -5,7 +5,6 @@ import os
 import pickle
 import shutil
 import tempfile
-from concurrent.futures import ThreadPoolExecutor
 
 from core.ctx import REPO
 from props import _crash_fsfault as F
@@ -16,10 +15,12 @@ DRIVER = "Driver/C24.lean"
 OBLIGATIONS = ["NiftyVerif.C24." + t for t in (
     "never_unresumable", "crash_safe", "crash_safe_single", "final_files", "natSys_lawful",
     "inplace_not_crash_safe", "inplace_witness")]
-RULE = ("case = (model configuration, sequence of kill points); kill points are enumerated in the MODEL's byte-granular "
-        "operation sequence (every op boundary and every position inside a write) and mapped to the real run "
-        "(before op / partial write with the same fraction); non-trivial = at least one kill strictly inside the "
-        "run; distinct by (cfg, kills)")
+RULE = ("case = (model configuration, sequence of kill points of successive runs, then an unkilled resume); ALL single "
+        "kill points of the MODEL's byte-granular operation sequence (every op boundary, every position inside a "
+        "write) plus random double/triple kills are mapped to the real run (before op / partial write with the same "
+        "fraction) and executed on the real driver with simulated kills (exception + dead file system) in few "
+        "processes; a sample (and every distinct failure) is re-executed with real process kills (os._exit) and must "
+        "give byte-identical directories; non-trivial = first kill strictly inside the run; distinct by (cfg, kills)")
 TRUSTED_BASE = [
     "Lean 4.33 kernel; axioms propext/Classical.choice/Quot.sound only (audited every run)",
     "hand-written model Model/CrashRe.lean of optimize_kl's file protocol and resume logic, tied by (a) equality of the "
@@ -39,18 +40,19 @@ ASSUMPTIONS = [
 ]
 
 
-# ------------------------------------------------------------------------------------------------ worker (subprocess)
-def worker(args):
-    """runs in a fresh process under the fault injector: the REAL nifty.re.optimize_kl on a tiny model"""
+# ------------------------------------------------------------------------------------------------ inside the workers
+def _setup(cfg, jcache=None):
+    """build the tiny model and return drive(odir, resume, copy_to=None) -> result dict (runs the REAL optimize_kl)"""
+    import sys
     import jax
     jax.config.update("jax_enable_x64", True)
-    if args.get("jcache"):  # persistent compilation cache: the processes differ only in where they are killed
-        jax.config.update("jax_compilation_cache_dir", args["jcache"])
+    if jcache:  # persistent compilation cache: the processes differ only in where they are killed
+        jax.config.update("jax_compilation_cache_dir", jcache)
         jax.config.update("jax_persistent_cache_min_compile_time_secs", 0)
         jax.config.update("jax_persistent_cache_min_entry_size_bytes", -1)
     import jax.numpy as jnp
+    import numpy as np
     import nifty.re as jft
-    import sys
     okl = sys.modules["nifty.re.optimize_kl"]
 
     class Fwd(jft.Model):
@@ -63,10 +65,10 @@ def worker(args):
     f = Fwd()
     d = jnp.array([1.0, 2.0, 0.5])
     lh = jft.Gaussian(d, noise_cov_inv=lambda x: 4.0 * x).amend(f)
-    key = jax.random.PRNGKey(int(args.get("seed", 0)))
+    key = jax.random.PRNGKey(int(cfg.get("seed", 0)))
     k1, k2 = jax.random.split(key)
     pos = jft.Vector(jft.random_like(k1, f.domain))
-    # count the driver's calls of OptimizeVI.update (= iterations really performed by this process)
+    # count the driver's calls of OptimizeVI.update (= iterations really performed by one call of the driver)
     n_upd = [0]
     orig_update = okl.OptimizeVI.update
 
@@ -74,131 +76,56 @@ def worker(args):
         n_upd[0] += 1
         return orig_update(self, samples, state, **kw)
     okl.OptimizeVI.update = counting_update
-    callback = None
-    if args.get("copy_to"):
-        import shutil as _sh
 
-        def callback(samples, st):  # reference run only: keep every iteration's files (outside odir)
-            for fn in ("last.pkl", "minisanity.txt"):
-                _sh.copyfile(os.path.join(args["odir"], fn), os.path.join(args["copy_to"], f"{int(st.nit)}.{fn}"))
-    s, st = jft.optimize_kl(
-        lh, pos, key=k2, n_total_iterations=int(args["n"]), n_samples=int(args.get("n_samples", 1)),
-        draw_linear_kwargs=dict(cg_name=None, cg_kwargs=dict(absdelta=1e-8, maxiter=10)),
-        nonlinearly_update_kwargs=dict(minimize_kwargs=dict(name=None, xtol=1e-4, cg_kwargs=dict(name=None), maxiter=3)),
-        kl_kwargs=dict(minimize_kwargs=dict(name=None, xtol=1e-4, cg_kwargs=dict(name=None), maxiter=4)),
-        sample_mode=args.get("sample_mode", "nonlinear_resample"), odir=args["odir"], resume=bool(args["resume"]),
-        callback=callback)
-    blob = pickle.dumps((s, st._replace(config={})))
-    import numpy as np
-    leaves = [np.asarray(x).tobytes() for x in jax.tree_util.tree_leaves((s.pos, s._samples, st.key))]
-    res = dict(sha=hashlib.sha1(blob).hexdigest(), leaves=hashlib.sha1(b"|".join(leaves)).hexdigest(),
-               nit=int(st.nit), updates=n_upd[0])
+    def drive(odir, resume, copy_to=None):
+        n_upd[0] = 0
+        callback = None
+        if copy_to:
+            def callback(samples, st):  # reference run only: keep every iteration's files (outside odir)
+                for fn in ("last.pkl", "minisanity.txt"):
+                    shutil.copyfile(os.path.join(odir, fn), os.path.join(copy_to, f"{int(st.nit)}.{fn}"))
+        s, st = jft.optimize_kl(
+            lh, pos, key=k2, n_total_iterations=int(cfg["n"]), n_samples=int(cfg.get("n_samples", 1)),
+            draw_linear_kwargs=dict(cg_name=None, cg_kwargs=dict(absdelta=1e-8, maxiter=10)),
+            nonlinearly_update_kwargs=dict(
+                minimize_kwargs=dict(name=None, xtol=1e-4, cg_kwargs=dict(name=None), maxiter=3)),
+            kl_kwargs=dict(minimize_kwargs=dict(name=None, xtol=1e-4, cg_kwargs=dict(name=None), maxiter=4)),
+            sample_mode=cfg.get("sample_mode", "nonlinear_resample"), odir=odir, resume=bool(resume),
+            callback=callback)
+        blob = pickle.dumps((s, st._replace(config={})))
+        leaves = [np.asarray(x).tobytes() for x in jax.tree_util.tree_leaves((s.pos, s._samples, st.key))]
+        return dict(sha=hashlib.sha1(blob).hexdigest(), leaves=hashlib.sha1(b"|".join(leaves)).hexdigest(),
+                    nit=int(st.nit), updates=n_upd[0])
+    return drive
+
+
+def worker(args):
+    """one real process = one call of the driver (killed by os._exit at the point given to the injector)"""
+    drive = _setup(args["cfg"], args.get("jcache"))
+    res = drive(args["odir"], args["resume"])
     with open(args["result"], "w") as fh:
         json.dump(res, fh)
 
 
-# ------------------------------------------------------------------------------------------------ harness side
-_WORK = None
-_REF = {}
-_POOL = None
-
-
-def _pool():
-    global _POOL
-    if _POOL is None:
-        _POOL = F.Pool(int(os.environ.get("VERIF_WORKERS", "8")), preload=("jax", "jax.numpy", "numpy", "scipy.sparse.linalg"),
-                       env={"NIFTY_REPO": REPO})
-    return _POOL
-
-
-def _cleanup():
-    if _POOL is not None:
-        _POOL.close()
-    if _WORK and not os.environ.get("VERIF_KEEP"):
-        shutil.rmtree(_WORK, ignore_errors=True)
-
-
-def _work():
-    global _WORK
-    if _WORK is None:
-        import atexit
-        _WORK = tempfile.mkdtemp(prefix="c24_")
-        atexit.register(_cleanup)
-    return _WORK
-
-
-def _cfgkey(cfg):
-    return json.dumps(cfg, sort_keys=True)
-
-
-def _run(tag, odir, cfg, resume, kill=None, copy_to=None):
-    """one real process. kill = None | dict(at=real op index, when=…, frac=[p,q]).
-    -> dict(rc, err, res, ops, queries, killed)"""
-    w = _work()
-    log = os.path.join(w, tag + ".log")
-    resf = os.path.join(w, tag + ".res")
-    for f in (log, resf, log + ".err"):
-        if os.path.exists(f):
-            os.unlink(f)
-    os.makedirs(os.path.dirname(odir), exist_ok=True)
-    job = dict(root=odir, log=log, target="props.c24:worker", repo=REPO,
-               kill_at=None if kill is None else kill["at"], when=(kill or {}).get("when", "before"),
-               frac=(kill or {}).get("frac", [1, 2]),
-               args=dict(cfg, odir=odir, resume=resume, result=resf, copy_to=copy_to))
-    job["args"]["jcache"] = os.path.join(w, "jax_cache")
-    rc, err = _pool().run(job, timeout=900)
-    ops, qs, killed = F.read_log(log)
-    res = json.load(open(resf)) if os.path.exists(resf) else None
-    e = json.load(open(log + ".err")) if os.path.exists(log + ".err") else None
-    return dict(rc=rc, err=err, res=res, ops=ops, queries=qs, killed=killed, exc=e)
-
-
-def _reference(cfg):
-    """uninterrupted run (recorded, per-iteration copies of the files) — cached per configuration"""
-    key = _cfgkey(cfg)
-    if key in _REF:
-        return _REF[key]
-    w = _work()
-    tag = "ref_" + hashlib.sha1(key.encode()).hexdigest()[:8]
-    cp = os.path.join(w, tag + "_copies")
-    shutil.rmtree(cp, ignore_errors=True)
-    os.makedirs(cp)
-    odir = os.path.join(w, tag + "_odir", "out")
-    shutil.rmtree(os.path.dirname(odir), ignore_errors=True)
-    r = _run(tag, odir, cfg, cfg.get("r0", False), copy_to=cp)
-    if r["rc"] != 0 or r["res"] is None:
-        raise RuntimeError(f"reference run failed rc={r['rc']} {r['exc']} {r['err'][-300:]}")
-    n = cfg["n"]
-    pk = {i: open(os.path.join(cp, f"{i}.last.pkl"), "rb").read() for i in range(1, n + 1)}
-    ms, prev = {}, b""
-    for i in range(1, n + 1):
-        cur = open(os.path.join(cp, f"{i}.minisanity.txt"), "rb").read()
-        ms[i] = cur[len(prev):]
-        prev = cur
-    r.update(pickles=pk, msgs=ms)
-    _REF[key] = r
-    return r
-
-
-def _status(path, ref):
+def _status(path, pickles):
     if not os.path.exists(path):
         return "absent"
     b = open(path, "rb").read()
     if not b:
         return "empty"
-    for i, p in ref["pickles"].items():
+    for i, p in pickles.items():
         if b == p:
             return f"complete:{i}"
-    if any(p.startswith(b) for p in ref["pickles"].values()):
+    if any(p.startswith(b) for p in pickles.values()):
         return "partial"
     return "garbage"
 
 
-def _tokens(path, ref):
+def _tokens(path, msgs):
     if not os.path.exists(path):
         return "absent"
     b = open(path, "rb").read()
-    out, pos, msgs = [], 0, ref["msgs"]
+    out, pos = [], 0
     while pos < len(b):
         hit = [i for i, m in msgs.items() if b.startswith(m, pos)]
         if hit:
@@ -218,22 +145,20 @@ def _tokens(path, ref):
 
 
 def _files(odir, ref):
-    return {"last.pkl": _status(os.path.join(odir, "last.pkl"), ref),
-            "last.pkl.tmp": _status(os.path.join(odir, "last.pkl.tmp"), ref),
-            "minisanity.txt": _tokens(os.path.join(odir, "minisanity.txt"), ref)}
+    return {"last.pkl": _status(os.path.join(odir, "last.pkl"), ref["pickles"]),
+            "last.pkl.tmp": _status(os.path.join(odir, "last.pkl.tmp"), ref["pickles"]),
+            "minisanity.txt": _tokens(os.path.join(odir, "minisanity.txt"), ref["msgs"])}
 
 
-def _model_files(mf):
-    """model statuses: 'partial:i' -> 'partial' (the real bytes cannot tell which iteration a short prefix belongs to)"""
-    return {k: (v.split(":")[0] if isinstance(v, str) and v.startswith("partial") else v) for k, v in mf.items()}
+def _snap(odir):
+    return F.snapshot(odir) if os.path.isdir(odir) else {}
 
 
 def _real_kill(pos, ops):
     """model position {coarse, off, len} -> kill spec on a real op list whose coarse view equals the model's"""
     if pos == "end":
-        return None
+        return dict(at=10 ** 6, when="before")
     c, off, ln = pos["coarse"], pos["off"], pos["len"]
-    # real indices of coarse op c
     groups, last = [], None
     for idx, ev in enumerate(ops):
         key = (ev["op"], ev["path"]) if ev["op"] == "write" else None
@@ -243,7 +168,7 @@ def _real_kill(pos, ops):
             groups.append([idx])
         last = key
     if c >= len(groups):
-        return None
+        return dict(at=10 ** 6, when="before")
     g = groups[c]
     if off == 0:
         return dict(at=g[0], when="before")
@@ -260,68 +185,190 @@ def _real_kill(pos, ops):
     return dict(at=g[-1], when="after")
 
 
-def _scenario(sid, cfg, kills_real, ref, model=None):
-    """run the real scenario: successive runs killed at kills_real[j] (real coordinates, or model positions if `model`
-    is given — then the op list of the reference run is used to translate), then an unkilled resume.
-    -> dict(stages=[…], final=…, problems=[…])"""
-    w = _work()
-    odir = os.path.join(w, f"s{sid}", "out")
-    shutil.rmtree(os.path.dirname(odir), ignore_errors=True)
-    os.makedirs(os.path.dirname(odir))
-    stages, resume = [], bool(cfg.get("r0", False))
-    for j, kill in enumerate(kills_real):
-        r = _run(f"s{sid}_k{j}", odir, cfg, resume, kill=kill)
-        stages.append(dict(rc=r["rc"], exc=r["exc"], files=_files(odir, ref) if os.path.isdir(odir) else None,
-                           coarse=F.coarse(r["ops"], drop_noop_mkdir=False), updates=None, killed=r["killed"], kill=kill))
-        resume = True
-        if r["rc"] not in (0, F.EXIT_KILLED):
-            break
-    r = _run(f"s{sid}_fin", odir, cfg, True)
-    final = dict(rc=r["rc"], exc=r["exc"], res=r["res"], coarse=F.coarse(r["ops"], drop_noop_mkdir=False),
-                 files=_files(odir, ref) if os.path.isdir(odir) else None,
-                 reads=sorted({q["path"] for q in r["queries"]}), err=r["err"][-300:])
-    shutil.rmtree(os.path.dirname(odir), ignore_errors=True)
-    return dict(stages=stages, final=final)
+def session(args):
+    """one process, many scenarios, SIMULATED kills (F.simulate): reference run first, then for every scenario the
+    successive killed runs and the final unkilled resume.  Output (json) -> args['out']."""
+    cfg = args["cfg"]
+    drive = _setup(cfg, args.get("jcache"))
+    w = args["work"]
+    cp = os.path.join(w, "copies")
+    os.makedirs(cp, exist_ok=True)
+    rdir = os.path.join(w, "ref", "out")
+    r = F.simulate(lambda: drive(rdir, cfg.get("r0", False), copy_to=cp), rdir)
+    out = dict(ref=dict(status=r["status"], exc=r["exc"], res=r["value"], ops=r["ops"],
+                        coarse=F.coarse(r["ops"], drop_noop_mkdir=False)), scen={})
+    if r["status"] != "done":
+        json.dump(out, open(args["out"], "w"))
+        return
+    n = cfg["n"]
+    ref = dict(pickles={i: open(os.path.join(cp, f"{i}.last.pkl"), "rb").read() for i in range(1, n + 1)}, msgs={})
+    prev = b""
+    for i in range(1, n + 1):
+        cur = open(os.path.join(cp, f"{i}.minisanity.txt"), "rb").read()
+        ref["msgs"][i] = cur[len(prev):]
+        prev = cur
+    out["ref"]["pickle_sha"] = {i: hashlib.sha1(p).hexdigest() for i, p in ref["pickles"].items()}
+    proto = None
+    for name, coarse in (args.get("model_coarse") or {}).items():
+        if coarse == out["ref"]["coarse"]:
+            proto = name
+    out["proto"] = proto
+    for sc in args["scenarios"]:
+        odir = os.path.join(w, f"s{sc['sid']}", "out")
+        shutil.rmtree(os.path.dirname(odir), ignore_errors=True)
+        os.makedirs(os.path.dirname(odir))
+        if "kills" in sc:
+            kills = sc["kills"]
+        else:  # model positions per protocol; stage 1 refers to the reference op list, later stages to 1 write per dump
+            poss = (sc["pos"].get(proto) if proto else None)
+            if poss is None:
+                continue
+            kills = [_real_kill(poss[0], r["ops"])] + [
+                (dict(at=10 ** 6, when="before") if p == "end" else
+                 dict(at=p["coarse"], when="before") if p["off"] == 0 else
+                 dict(at=p["coarse"], when="partial", frac=[p["off"], p["len"]])) for p in poss[1:]]
+        stages, resume = [], bool(cfg.get("r0", False))
+        for kill in kills:
+            k = F.simulate(lambda: drive(odir, resume), odir, kill)
+            stages.append(dict(status=k["status"], exc=k["exc"], files=_files(odir, ref), snap=_snap(odir),
+                               coarse=F.coarse(k["ops"], drop_noop_mkdir=False), killed=k["killed"], kill=kill))
+            resume = True
+            if k["status"] == "error":
+                break
+        k = F.simulate(lambda: drive(odir, True), odir, None)
+        final = dict(status=k["status"], exc=k["exc"], res=k["value"], files=_files(odir, ref), snap=_snap(odir),
+                     coarse=F.coarse(k["ops"], drop_noop_mkdir=False), reads=sorted({q["path"] for q in k["queries"]}))
+        out["scen"][str(sc["sid"])] = dict(kills=kills, stages=stages, final=final)
+        shutil.rmtree(os.path.dirname(odir), ignore_errors=True)
+    json.dump(out, open(args["out"], "w"))
+
+
+# ------------------------------------------------------------------------------------------------ harness side
+_WORK = None
+_POOL = None
+_SESS = {}
 
 
 class Infra(Exception):
     pass
 
 
-def _judge(cfg, kills_real, sc, ref):
-    """the property on the real code: the unkilled resume finishes and returns what the uninterrupted run returned"""
+def _cleanup():
+    if _POOL is not None:
+        _POOL.close()
+    if _WORK and not os.environ.get("VERIF_KEEP"):
+        shutil.rmtree(_WORK, ignore_errors=True)
+
+
+def _work():
+    global _WORK
+    if _WORK is None:
+        import atexit
+        _WORK = tempfile.mkdtemp(prefix="c24_")
+        atexit.register(_cleanup)
+    return _WORK
+
+
+def _pool():
+    global _POOL
+    if _POOL is None:
+        _POOL = F.Pool(int(os.environ.get("VERIF_WORKERS", "6")),
+                       preload=("jax", "jax.numpy", "numpy", "scipy.sparse.linalg"), env={"NIFTY_REPO": REPO})
+    return _POOL
+
+
+def _run_session(tag, cfg, scenarios, model_coarse=None):
+    """-> parsed session output (simulated kills, one process)"""
+    w = os.path.join(_work(), "sess_" + tag)
+    shutil.rmtree(w, ignore_errors=True)
+    os.makedirs(w)
+    outp = os.path.join(w, "out.json")
+    job = dict(root=os.path.join(w, "unused_root"), log=os.path.join(w, "log"), target="props.c24:session", repo=REPO,
+               kill_at=None, args=dict(cfg=cfg, scenarios=scenarios, out=outp, work=w, model_coarse=model_coarse,
+                                       jcache=os.path.join(_work(), "jax_cache")))
+    rc, err = _pool().run(job, timeout=1500)
+    if rc != 0 or not os.path.exists(outp):
+        e = open(job["log"] + ".err").read() if os.path.exists(job["log"] + ".err") else ""
+        raise Infra(f"session {tag} failed rc={rc} {e} {err[-400:]}")
+    return json.load(open(outp))
+
+
+def _run_real(tag, odir, cfg, resume, kill=None):
+    """one REAL process (os._exit at the kill point). -> dict(rc, exc, res, ops)"""
+    w = _work()
+    log = os.path.join(w, tag + ".log")
+    resf = os.path.join(w, tag + ".res")
+    for f in (log, resf, log + ".err"):
+        if os.path.exists(f):
+            os.unlink(f)
+    job = dict(root=odir, log=log, target="props.c24:worker", repo=REPO,
+               kill_at=None if kill is None else kill["at"], when=(kill or {}).get("when", "before"),
+               frac=(kill or {}).get("frac", [1, 2]),
+               args=dict(cfg=cfg, odir=odir, resume=resume, result=resf, jcache=os.path.join(w, "jax_cache")))
+    rc, err = _pool().run(job, timeout=900)
+    ops, qs, killed = F.read_log(log)
+    res = json.load(open(resf)) if os.path.exists(resf) else None
+    e = json.load(open(log + ".err")) if os.path.exists(log + ".err") else None
+    return dict(rc=rc, err=err, res=res, ops=ops, killed=killed, exc=e)
+
+
+def _scenario_real(sid, cfg, kills):
+    """the scenario with REAL kills: one process per run. -> same shape as a session scenario (without `files`)"""
+    odir = os.path.join(_work(), f"real{sid}", "out")
+    shutil.rmtree(os.path.dirname(odir), ignore_errors=True)
+    os.makedirs(os.path.dirname(odir))
+    stages, resume = [], bool(cfg.get("r0", False))
+    st_of = {0: "done", F.EXIT_KILLED: "killed", F.EXIT_ERROR: "error"}
+    for j, kill in enumerate(kills):
+        r = _run_real(f"real{sid}_k{j}", odir, cfg, resume, kill)
+        stages.append(dict(status=st_of.get(r["rc"], f"rc={r['rc']}"), exc=r["exc"], snap=_snap(odir), killed=r["killed"],
+                           coarse=F.coarse(r["ops"], drop_noop_mkdir=False)))
+        resume = True
+        if r["rc"] not in (0, F.EXIT_KILLED):
+            break
+    r = _run_real(f"real{sid}_fin", odir, cfg, True)
+    final = dict(status=st_of.get(r["rc"], f"rc={r['rc']}"), exc=r["exc"], res=r["res"], snap=_snap(odir),
+                 coarse=F.coarse(r["ops"], drop_noop_mkdir=False))
+    shutil.rmtree(os.path.dirname(odir), ignore_errors=True)
+    return dict(kills=kills, stages=stages, final=final)
+
+
+def _judge(cfg, sc, refres, final_sha=None):
+    """the property on the real code: every restart gets past loading, the unkilled resume finishes and returns what the
+    uninterrupted run returned, and last.pkl holds that state.  -> None | (what, signature)"""
     fin = sc["final"]
-    if fin["rc"] == -9 or any(st["rc"] == -9 for st in sc["stages"]):
-        raise Infra("worker process could not be run (timeout / fork server failure)")
-    where = "; ".join(f"{(st['killed'] or {}).get('killed', 'not killed')}" for st in sc["stages"])
-    for st in sc["stages"]:
-        if st["rc"] not in (0, F.EXIT_KILLED):
-            e = (st["exc"] or {}).get("error", f"rc={st['rc']}")
-            return (f"run with resume=True raised {e} after an earlier kill ({where}): resuming is impossible",
+    where = "; ".join(f"{(st.get('killed') or {}).get('killed', 'not killed')}" for st in sc["stages"])
+    for st in list(sc["stages"]) + [fin]:
+        if str(st["status"]).startswith("rc="):
+            raise Infra(f"worker failed: {st['status']}")
+        if st["status"] == "error":
+            e = (st["exc"] or {}).get("error", "?")
+            return (f"optimize_kl(resume=True) raised {e} after an earlier kill [{where}]: resuming is impossible",
                     dict(driver="re.optimize_kl", phase="resume", error=e, site=(st["exc"] or {}).get("site", "")))
-    if fin["rc"] != 0 or fin["res"] is None:
-        e = (fin["exc"] or {}).get("error", f"rc={fin['rc']}")
-        return (f"resume=True after kill [{where}] raised {e}: resuming is impossible",
-                dict(driver="re.optimize_kl", phase="resume", error=e, site=(fin["exc"] or {}).get("site", "")))
-    if fin["res"]["sha"] != ref["res"]["sha"] or fin["res"]["nit"] != ref["res"]["nit"]:
+    if fin["res"] is None or fin["res"]["sha"] != refres["sha"] or fin["res"]["nit"] != refres["nit"]:
         return (f"resume=True after kill [{where}] finished with different (samples, state) than the uninterrupted run "
-                f"(nit {fin['res']['nit']} vs {ref['res']['nit']}, leaves equal: {fin['res']['leaves'] == ref['res']['leaves']})",
+                f"(nit {(fin['res'] or {}).get('nit')} vs {refres['nit']}; array leaves equal: "
+                f"{(fin['res'] or {}).get('leaves') == refres['leaves']})",
                 dict(driver="re.optimize_kl", phase="result", error="different-result"))
-    if fin["files"]["last.pkl"] != f"complete:{cfg['n']}":
-        return (f"after the resumed run last.pkl is {fin['files']['last.pkl']}, not the final state",
+    if final_sha is not None and fin["snap"].get("last.pkl") != final_sha:
+        return (f"after the resumed run [{where}] last.pkl is not the pickle of the final state",
                 dict(driver="re.optimize_kl", phase="files", error="last.pkl"))
     return None
 
 
 def oracle(case):
-    """case = {cfg: {...}, kills: [ {at, when, frac?}, … ]} in real op coordinates. Property on the real code only."""
+    """case = {cfg: {...}, kills: [ {at, when, frac?}, … ]} in real op coordinates. Property on the real code only, with
+    REAL process kills (os._exit)."""
     if "kills" not in case:
         return None
     cfg = case["cfg"]
-    ref = _reference(cfg)
-    sc = _scenario("o" + hashlib.sha1(json.dumps(case, sort_keys=True).encode()).hexdigest()[:8], cfg, case["kills"], ref)
+    key = json.dumps(cfg, sort_keys=True)
     try:
-        return _judge(cfg, case["kills"], sc, ref)
+        if key not in _SESS:
+            _SESS[key] = _run_session("o" + hashlib.sha1(key.encode()).hexdigest()[:8], cfg, [])
+        ref = _SESS[key]["ref"]
+        sc = _scenario_real("o" + hashlib.sha1(json.dumps(case, sort_keys=True).encode()).hexdigest()[:8], cfg, case["kills"])
+        return _judge(cfg, sc, ref["res"], ref["pickle_sha"][str(cfg["n"])])
     except Infra:
         return None
 
@@ -346,124 +393,166 @@ def _configs(ctx):
     return cfgs
 
 
+def _model_files(mf):
+    """model statuses: 'partial:i' -> 'partial' (the real bytes cannot tell which iteration a short prefix belongs to)"""
+    return {k: (v.split(":")[0] if isinstance(v, str) and v.startswith("partial") else v) for k, v in mf.items()}
+
+
 def run(ctx):
-    workers = int(os.environ.get("VERIF_WORKERS", "8"))
     for cfg in _configs(ctx):
-        _run_cfg(ctx, cfg, workers)
+        _run_cfg(ctx, cfg)
 
 
-def _run_cfg(ctx, cfg, workers):
+def _run_cfg(ctx, cfg):
     n, r0 = cfg["n"], cfg["r0"]
-    ref = _reference(cfg)
+    protos = ("atomic", "inplace")
+    mo = ctx.model(DRIVER, [dict(op="ops", proto=p, n=n, resume=r0) for p in protos])
+    mo = dict(zip(protos, mo))
+    # kill points in model coordinates: ALL single kills (every op boundary, every byte position) + double kills
+    scen = {}
+    for p in protos:
+        nf = mo[p]["fine"]
+        ks = [[k] for k in range(nf + 1)]
+        rng = __import__("random").Random(ctx.rng.randrange(10 ** 9))
+        for _ in range(ctx.n(12, 60)):
+            ks.append([rng.randrange(1, nf), rng.randrange(0, 16)])
+        for _ in range(ctx.n(2, 12)):
+            ks.append([rng.randrange(1, nf), rng.randrange(0, 16), rng.randrange(0, 16)])
+        scen[p] = ks
+    sims = {p: ctx.model(DRIVER, [dict(op="sim", proto=p, n=n, r0=r0, kills=ks) for ks in scen[p]]) for p in protos}
+    nscen = max(len(scen[p]) for p in protos)
+    scenarios = []
+    for sid in range(nscen):
+        pos = {}
+        for p in protos:
+            if sid < len(scen[p]):
+                st = sims[p][sid]["stages"]
+                if all("pos" in x for x in st):
+                    pos[p] = [x["pos"] for x in st]
+        scenarios.append(dict(sid=sid, pos=pos))
+    # split over a few session processes (each pays the JAX start-up once)
+    nsess = ctx.n(3, 6)
+    chunks = [scenarios[i::nsess] for i in range(nsess)]
+    mc = {p: mo[p]["coarse"] for p in protos}
+    try:
+        outs = _pool().map(lambda a: _run_session(f"{cfg['seed']}_{a[0]}", cfg, a[1], mc), list(enumerate(chunks)))
+    except Infra as e:
+        from core import leanrun
+        raise leanrun.InfraError(str(e))
+    ref = outs[0]["ref"]
+    _SESS[json.dumps(cfg, sort_keys=True)] = outs[0]
+    proto = outs[0]["proto"]
     # (1) the op sequence of the real uninterrupted run is the model's (atomic = repaired protocol)
-    mo = ctx.model(DRIVER, [dict(op="ops", proto="atomic", n=n, resume=r0), dict(op="ops", proto="inplace", n=n, resume=r0)])
-    real_coarse = F.coarse(ref["ops"], drop_noop_mkdir=False)
     ctx.traces_validated += 1
     case0 = dict(op="ops", cfg=cfg)
-    if not ctx.compare(case0, dict(coarse=real_coarse), dict(coarse=mo[0]["coarse"]),
-                       note="op sequence of the real uninterrupted run vs model (atomic protocol)"
-                            + (" — the real sequence equals the model of the IN-PLACE protocol"
-                               if real_coarse == mo[1]["coarse"] else "")):
-        proto = "inplace" if real_coarse == mo[1]["coarse"] else None
-    else:
-        proto = "atomic"
+    ctx.compare(case0, dict(coarse=ref["coarse"]), dict(coarse=mo["atomic"]["coarse"]),
+                note="op sequence of the real uninterrupted run vs model (atomic protocol)"
+                     + (" — the real sequence equals the model of the IN-PLACE protocol" if proto == "inplace" else ""))
     ctx.stat(f"real-protocol={proto}")
     if ref["res"]["updates"] != n or ref["res"]["nit"] != n:
         ctx.disagree(case0, ref["res"], dict(updates=n, nit=n), "uninterrupted run: number of updates / nit")
+    if any(o["ref"]["res"] != ref["res"] for o in outs):
+        ctx.disagree(case0, [o["ref"]["res"] for o in outs], ref["res"], "the uninterrupted run is not deterministic")
+        return
+    final_sha = ref["pickle_sha"][str(n)]
     if proto is None:
-        # unknown protocol: explore crash points directly in real coordinates
+        # unknown protocol: no model to compare with; explore crash points directly in real coordinates
         kills = [[dict(at=k, when="before")] for k in range(len(ref["ops"]) + 1)]
         kills += [[dict(at=k, when="partial", frac=[1, 2])] for k, ev in enumerate(ref["ops"]) if ev["op"] == "write"]
-        res = _pool().map(lambda a: (a[1], _scenario(f"u{a[0]}", cfg, a[1], ref)), list(enumerate(kills)))
-        for ks, sc in res:
-            ctx.case(dict(cfg=cfg, kills=ks))
-            j = _judge(cfg, ks, sc, ref)
+        o = _run_session(f"{cfg['seed']}_u", cfg, [dict(sid=i, kills=k) for i, k in enumerate(kills)], mc)
+        for sc in o["scen"].values():
+            ctx.case(dict(cfg=cfg, kills=sc["kills"]))
+            j = _judge(cfg, sc, ref["res"], final_sha)
             if j:
-                ctx.counterexample(dict(cfg=cfg, kills=ks), *j)
+                ctx.counterexample(dict(cfg=cfg, kills=sc["kills"]), *j)
         return
-    nfine = mo[0 if proto == "atomic" else 1]["fine"]
-    # (2) kill points in model coordinates
-    single = list(range(nfine + 1))
-    if ctx.quick:
-        # stratified: every point of the second loop pass, every third elsewhere, first and last
-        per = (nfine - (3 if not r0 else 1)) // n
-        lo = nfine - per * (n - 1)
-        keep = set(range(lo, lo + per + 1)) | {0, 2, lo - per + 5, lo - per + 7, nfine - 1, nfine}
-        single = sorted(k for k in keep if 0 <= k <= nfine)
-    scen = [[k] for k in single]
-    ndouble = ctx.n(2, 24)
-    for _ in range(ndouble):
-        k1 = ctx.rng.randrange(1, nfine)
-        scen.append([k1, ctx.rng.randrange(0, 14)])
-    sims = ctx.model(DRIVER, [dict(op="sim", proto=proto, n=n, r0=r0, kills=ks) for ks in scen])
-    jobs = []
-    for sid, (ks, sim) in enumerate(zip(scen, sims)):
-        # translate model positions to real kills; stage 1 uses the reference op list; later stages use the op list the
-        # model predicts for the resumed run (1 real write per model write group is checked below)
-        kills_real = []
-        for j, st in enumerate(sim["stages"]):
-            if "pos" not in st:
-                break
-            if j == 0:
-                kr = _real_kill(st["pos"], ref["ops"])
-            else:
-                pos = st["pos"]
-                kr = None if pos == "end" else (
-                    dict(at=pos["coarse"], when="before") if pos["off"] == 0
-                    else dict(at=pos["coarse"], when="partial", frac=[pos["off"], pos["len"]]))
-            kills_real.append(kr or dict(at=10 ** 6, when="before"))
-        jobs.append((sid, ks, sim, kills_real))
-    single_write = all(ev["op"] != "write" or i == 0 or ref["ops"][i - 1]["op"] != "write"
-                       for i, ev in enumerate(ref["ops"]))
-    if not single_write:
-        ctx.notes.append("a dump used several write() calls; later-stage kill positions assume one write per dump")
-    results = _pool().map(lambda jb: _scenario(f"{cfg['seed']}_{jb[0]}", cfg, jb[3], ref), jobs)
-    infra = 0
-    for (sid, ks, sim, kills_real), sc in zip(jobs, results):
-        case = dict(cfg=cfg, kills_model=ks, kills=kills_real)
-        if sc["final"]["rc"] == -9 or any(st["rc"] == -9 for st in sc["stages"]):
-            infra += 1
+    nfine = mo[proto]["fine"]
+    allsc = {}
+    for o in outs:
+        allsc.update(o["scen"])
+    failing = []
+    for sid, ks in enumerate(scen[proto]):
+        sc = allsc.get(str(sid))
+        sim = sims[proto][sid]
+        if sc is None:
             continue
-        inside = any(0 < k for k in ks) and ks[0] < nfine
-        for j, st in enumerate(sim["stages"]):
+        case = dict(cfg=cfg, kills_model=ks, kills=sc["kills"])
+        inside = 0 < ks[0] < nfine
+        for st in sim["stages"]:
             pos = st.get("pos")
             ctx.stat("kill:" + ("end" if pos == "end" else ("mid-write" if pos and pos["off"] else "op-boundary")))
         ctx.stat(f"stages={len(ks)}")
         # correspondence: directory after every kill, resumed-from iteration, op sequences, final files
+        fin = sc["final"]
+        ok = fin["status"] == "done"
         impl = dict(stages=[dict(files=st["files"], coarse=st["coarse"]) for st in sc["stages"]],
-                    final=dict(ok=sc["final"]["rc"] == 0,
-                               updates=(sc["final"]["res"] or {}).get("updates"),
-                               state=(sc["final"]["res"] or {}).get("nit"),
-                               coarse=sc["final"]["coarse"] if sc["final"]["rc"] == 0 else None,
-                               files=sc["final"]["files"] if sc["final"]["rc"] == 0 else None))
+                    final=dict(ok=ok, updates=(fin["res"] or {}).get("updates"), state=(fin["res"] or {}).get("nit"),
+                               coarse=fin["coarse"] if ok else None, files=fin["files"] if ok else None))
         mfin = sim["final"]
         modl = dict(stages=[dict(files=_model_files(st["files"]), coarse=st["coarse"]) for st in sim["stages"] if "files" in st],
                     final=dict(ok=mfin["ok"], updates=mfin.get("updates"), state=mfin.get("state"),
                                coarse=mfin.get("coarse"), files=_model_files(mfin["files"]) if mfin.get("files") else None))
         ctx.compare(case, impl, modl, note="directory after each kill / resumed run: real vs model", nontrivial=inside)
         ctx.traces_validated += len(sc["stages"]) + 1
-        if sc["final"]["rc"] == 0 and not set(sc["final"]["reads"]) <= {"last.pkl", "."}:
-            ctx.disagree(case, dict(reads=sc["final"]["reads"]), dict(reads=["last.pkl"]),
+        if ok and not set(fin["reads"]) <= {"last.pkl", "."}:
+            ctx.disagree(case, dict(reads=fin["reads"]), dict(reads=["last.pkl"]),
                          "read-set of the resumed run is larger than the model's load()")
-        j = _judge(cfg, kills_real, sc, ref)
+        j = _judge(cfg, sc, ref["res"], final_sha)
         if j:
-            ctx.counterexample(dict(cfg=cfg, kills=kills_real), *j)
-    if infra:
-        ctx.notes.append(f"{infra} scenario(s) skipped: worker infrastructure failure (timeout)")
-        ctx.stat("skipped-infra", infra)
-        if infra * 5 > len(jobs):
-            from core import leanrun
-            raise leanrun.InfraError("too many worker failures")
+            failing.append((sid, sc, j))
+    # (3) simulated kill == real kill (os._exit in a process of its own): sample of scenarios, all failing ones first
+    pick, seen_sig = [], set()
+    for sid, _, j in failing:   # one representative per distinct failure signature (at most 3)
+        key = json.dumps(j[1], sort_keys=True)
+        if key not in seen_sig and len(pick) < 3:
+            seen_sig.add(key)
+            pick.append(sid)
+    cand = [sid for sid, ks in enumerate(scen[proto]) if str(sid) in allsc and sid not in pick]
+    ctx.rng.shuffle(cand)
+    mid = [sid for sid in cand if any(k.get("when") == "partial" for k in allsc[str(sid)]["kills"])]
+    pick += mid[:ctx.n(2, 8)] + [sid for sid in cand if sid not in mid][:ctx.n(2, 10)]
+    try:
+        reals = _pool().map(lambda sid: (sid, _scenario_real(f"{cfg['seed']}_{sid}", cfg, allsc[str(sid)]["kills"])), pick)
+    except Infra as e:
+        reals = []
+        ctx.notes.append(f"real-kill cross-check skipped: {e}")
+    confirmed = set()
+    for sid, rs in reals:
+        sc = allsc[str(sid)]
+        if any(str(st["status"]).startswith("rc=") for st in rs["stages"] + [rs["final"]]):
+            ctx.stat("real-kill:infra-skipped")
+            continue
+        a = dict(stages=[dict(status=st["status"], snap=st["snap"], exc=(st["exc"] or {}).get("error")) for st in sc["stages"]],
+                 final=dict(status=sc["final"]["status"], snap=sc["final"]["snap"], res=sc["final"]["res"],
+                            exc=(sc["final"]["exc"] or {}).get("error")))
+        b = dict(stages=[dict(status=st["status"], snap=st["snap"], exc=(st["exc"] or {}).get("error")) for st in rs["stages"]],
+                 final=dict(status=rs["final"]["status"], snap=rs["final"]["snap"], res=rs["final"]["res"],
+                            exc=(rs["final"]["exc"] or {}).get("error")))
+        ctx.stat("real-kill:checked")
+        if not ctx.compare(dict(cfg=cfg, kills=sc["kills"], check="simulated-vs-real-kill"), b, a,
+                           note="directory snapshots / outcome: real kill (os._exit) vs simulated kill"):
+            continue
+        confirmed.add(sid)
+        ctx.traces_validated += 1
+    # a failure seen under a simulated kill is reported only when the same scenario with REAL kills showed it too
+    for sid, sc, j in failing:
+        if sid in confirmed:
+            ctx.counterexample(dict(cfg=cfg, kills=sc["kills"]), *j)
+    ctx.stat("failing-scenarios(simulated)", len(failing))
     ctx.extra["crash_points_model"] = nfine + 1
-    ctx.extra["crash_points_run"] = len(scen)
-    ctx.extra["exhaustive"] = bool(not ctx.quick)
+    ctx.extra["scenarios"] = len(scen[proto])
+    ctx.extra["exhaustive"] = True
 
 
 def search(ctx):
     """targeted: the witness of inplace_not_crash_safe — kill right after the truncating open of last.pkl / inside the dump"""
     cfg = dict(n=2, seed=0, n_samples=1, sample_mode="nonlinear_resample", r0=False)
-    ref = _reference(cfg)
-    for k, ev in enumerate(ref["ops"]):
+    try:
+        o = _run_session("search", cfg, [])
+    except Infra:
+        return
+    _SESS[json.dumps(cfg, sort_keys=True)] = o
+    for k, ev in enumerate(o["ref"]["ops"]):
         if ev["op"] == "write" and ev["path"].startswith("last.pkl"):
             for kill in (dict(at=k, when="before"), dict(at=k, when="partial", frac=[1, 2])):
                 case = dict(cfg=cfg, kills=[kill])
